@@ -114,7 +114,7 @@ PLANS.update({
         [{"driver": "replay", "scn": "MC_adv", "args": {"n": 500, "matrix": 0}}, {"driver": "replay", "scn": "dk_sim", "args": {"n": 300, "matrix": 0}},
          {"driver": "attack", "args": {"n": 12, "family": "disc", "stride": 2}}],
         [{"driver": "replay", "scn": "MC_adv", "args": {"n": 6000, "matrix": 0}}, {"driver": "replay", "scn": "dk_sim", "args": {"n": 8000, "matrix": 0}},
-         {"driver": "attack", "args": {"n": 300, "family": "disc", "stride": 1}}],
+         {"driver": "attack", "args": {"n": 120, "family": "disc", "stride": 1}}],
         required={"verify.claims": 300, "verify.genuine": 300, "scn.model.agrees": 300},
         rule="cases = behaviours of MC_disc (add genuine / altered / forged / foreign / garbage disclosures, drop, duplicate, swap; <= 2 steps) replayed in both "
              "serializations + random subsets / permutations / duplicates and nine re-serialisations of every genuine disclosure; distinct = distinct disclosure lists verified",
